@@ -22,7 +22,7 @@ THEOREMS = [
 ]
 GENERATED_OBLIGATIONS = ["Generated.genWrapper = Gen.C15.assumedWrapper (E15: shape of the wrapper loop; Gen.keepsReturn follows its `stop` field)"]
 RULE = ("bodies: random well-bracketed instruction lists (enter/exit of own actions spanning yields, log=observe current_action, "
-        "yield v / yield last-received, try/catch(Thrown | bare), raise, return v, resume of a higher-numbered generator with send/throw/close); "
+        "yield v / yield last-received, try/catch(Thrown | bare), raise (application exceptions, GeneratorExit, KeyboardInterrupt / SystemExit / CancelledError), return v, resume of a higher-numbered generator with send/throw/close); "
         "values (sent, yielded, returned) come from a pool compared by identity: None, small ints, a tuple, exception instances "
         "(also BaseException ones and the object used by throw) and an exception class used as plain data; "
         "1-4 generators, the script interleaves resumptions (send None/value, throw, close) with the driver entering/leaving up to 3 "
@@ -73,7 +73,7 @@ def gen_block(rng, i, ngen, depth, ctr, budget, allow_ret_val):
             out += gen_block(rng, i, ngen, depth + 1, ctr, budget, allow_ret_val)
             out.append(["endcatch"])
         elif r < 0.78:
-            out.append(["raise", rng.randint(0, 3)])
+            out.append(["raise", rand_exc(rng)])
         elif r < 0.82:
             out.append(["exit"])
         elif r < 0.87:
@@ -88,10 +88,16 @@ def gen_block(rng, i, ngen, depth, ctr, budget, allow_ret_val):
     return out
 
 
+def rand_exc(rng):
+    """exception ids: 0-3 application exceptions (class Thrown), 4 a GeneratorExit instance, 5 the class GeneratorExit
+    (`g.throw(GeneratorExit)`, the explicit spelling of cancellation), 6-8 BaseException-only objects"""
+    return rng.randint(0, 3) if rng.random() < 0.7 else rng.randint(4, 8)
+
+
 def gen_inp(rng, p_none):
     r = rng.random()
     if r < 0.12:
-        return ["throw", rng.randint(0, 3)]
+        return ["throw", rand_exc(rng)]
     if r < 0.18:
         return ["close"]
     if rng.random() < p_none:
@@ -190,6 +196,11 @@ def exc_name(env, e):
         return "user-copy:%s" % getattr(e, "n", "?")
     if isinstance(e, GeneratorExit):
         return "genExit"
+    for n in (6, 7, 8):
+        if env.E[n] is e:
+            return "base:%d" % n
+    if not isinstance(e, Exception):
+        return "base-copy:%s" % type(e).__name__
     msg = str(e)
     if isinstance(e, TypeError) and "just-started" in msg:
         return "typeErr"
@@ -316,7 +327,9 @@ def _run_real(case, wrapped):
     from eliot._generators import eliot_friendly_generator_function
 
     env = Env()
-    env.E = [Thrown(n) for n in range(4)]
+    import asyncio
+    env.E = [Thrown(n) for n in range(4)] + [GeneratorExit("thrown"), GeneratorExit, KeyboardInterrupt("k"), SystemExit(3),
+                                             asyncio.CancelledError("c")]
     env.V = make_pool(env)
     env.ids, env.keep, env.obs, env.events, env.nested = {}, [], [], [], []
     env.pending_base = None
@@ -505,12 +518,18 @@ FIXED_BODIES = [
      ["log", 4], ["exit"], ["log", 5], ["yieldLast"]],
 ]
 ALPHABET = [["enter", 1], ["exit"], ["resume", 0, ["send", None]], ["resume", 0, ["send", 7]], ["resume", 0, ["send", 11]],
-            ["resume", 0, ["throw", 0]], ["resume", 0, ["close"]]]
+            ["resume", 0, ["throw", 0]], ["resume", 0, ["throw", 5]], ["resume", 0, ["close"]]]
 
 
 # minimal / hand-picked cases, run first (so that a replay file shows the smallest failing input)
 CORPUS = [
     dict(gens=[[["ret", 7]]], script=[["resume", 0, ["send", None]]], family="corpus"),
+    # GeneratorExit that is thrown in explicitly, or raised by the body itself, comes out as GeneratorExit (only close() absorbs it);
+    # BaseException-only objects pass `except <application exception>` and come out by identity
+    dict(gens=[[["yield", 1], ["yield", 2]]], script=[["resume", 0, ["send", None]], ["resume", 0, ["throw", 5]], ["resume", 0, ["send", None]]], family="corpus"),
+    dict(gens=[[["yield", 1], ["raise", 4]]], script=[["resume", 0, ["send", None]], ["resume", 0, ["send", 3]]], family="corpus"),
+    dict(gens=[[["try"], ["yield", 1], ["catch", False], ["yield", 2], ["endcatch"], ["yield", 3]]],
+         script=[["resume", 0, ["send", None]], ["resume", 0, ["throw", 6]], ["resume", 0, ["throw", 8]]], family="corpus"),
     # an exception instance / class sent as plain data must arrive as the value of `yield`
     dict(gens=[[["yield", 1], ["yieldLast"], ["yieldLast"], ["ret", 12]]],
          script=[["resume", 0, ["send", None]], ["resume", 0, ["send", 11]], ["resume", 0, ["send", 12]], ["resume", 0, ["send", 10]]], family="corpus"),
